@@ -38,8 +38,7 @@ func idsAndRefs(n *Node, out map[string]bool) {
 }
 
 // decorateIDs gives each element without an id a fresh one with probability pct/100 (in place). A fresh id is equal to
-// no id and no itemref token of the document. Returns how many were added and how many of the document's resolvable
-// itemref targets now have a proper ancestor carrying an id.
+// no id and no itemref token of the document. Returns how many were added.
 func decorateIDs(r *vh.Rng, doc *Node, pct int) (added int) {
 	taken := map[string]bool{}
 	idsAndRefs(doc, taken)
@@ -79,7 +78,7 @@ func (h *harness) maybeDecorate(family string, doc *Node) {
 	if decorateIDs(h.r, doc, 25) > 0 {
 		h.rep.Count(family + ":decorated with unreferenced ids")
 	}
-	if n := nestedTargets(doc); n > 0 {
+	if n := nestedTargets(doc); n > 0 && family != "md-writer" {
 		h.rep.Count(family + ":itemref target below an element with an id")
 	}
 }
